@@ -148,13 +148,29 @@ def _c15(tier, seed):
 
 
 def _c01(tier, seed):
-    return k_family("gen", tier, seed)
+    allsq = [sqname(i) for i in range(64)]
+    if tier == "thorough":
+        tsq, l3 = allsq, allsq
+    else:
+        r = common.rng(seed, "c01-sq")
+        fixed = ["a1", "e1", "h1", "a8", "e8", "h8", "d4", "e5", "c3", "f6"]
+        tsq = fixed + r.sample([x for x in allsq if x not in fixed], 6)
+        l3 = ["e1", "d4", "h8"] + r.sample(allsq, 3)
+    hs = k_family("gen", tier, seed)
+    hs += ["h_attack::c01_targeted_" + x for x in tsq]
+    hs += ["h_filter::c01_filter_checked_e1", "h_filter::c01_filter_checked_d4", "h_filter::c01_filter_checked_h8",
+           "h_filter::c01_filter_checked_a5", "h_filter::c01_filter_unchecked_d4", "h_filter::c01_filter_king_missing_d4"]
+    hs += ["h_filter::l3_king_" + x for x in sorted(set(l3))]
+    return hs
 
 
 PROPS = {
-    "C01": dict(select=_c01, witnesses=["h_k::k_witness_d4_n_w"], timeout=1500,
+    "C01": dict(select=_c01, witnesses=["h_k::k_witness_d4_n_w", "h_attack::c01_targeted_witness", "h_filter::c01_filter_witness"], timeout=1800,
+                stubbed_prefixes=["h_filter::c01_filter"],
                 functions=["chess::piece::Piece::get_moves (+ get_pawn_moves, get_king_moves, get_knight_moves, slider rays)",
-                           "chess::Game::is_targeted (through castling)", "chess::position::Position::add/add_unsafe/new_assert"],
+                           "chess::Game::is_targeted (directly, all boards, per target square; and through castling)",
+                           "chess::Game::get_moves (legality filter; callees Piece::get_moves, push, pop, is_targeted replaced by nondeterministic stubs in h_filter)",
+                           "chess::position::Position::add/add_unsafe/new_assert"],
                 bounds="real generator from a concrete origin square for a concrete piece kind and side; all other 63 square contents, rights, e.p. file symbolic and consistent; quick: fixed rule-critical (square, kind, side) triples + seeded random ones; thorough: all 64 squares x 6 kinds x 2 sides; unwind 9 with unwinding assertions",
                 assumptions=P_ASSUME[:2] + [P_ASSUME[5]], native_replay=True),
     "C02": dict(select=_c02, witnesses=P_WITNESSES, timeout=900,
@@ -173,6 +189,46 @@ PROPS = {
                 functions=["chess::Game::push", "chess::Game::set_position", "chess::piece::Piece::score"],
                 bounds=P_BOUNDS, assumptions=P_ASSUME, native_replay=True),
 }
+
+def rt_family(tier, seed, n_random=6):
+    pairs = geometric_pairs()
+    promo = [FILES[a] + FILES[b] for a in range(8) for b in range(8) if abs(a - b) <= 1]
+    ep = [FILES[a] + FILES[b] for a in range(8) for b in range(8) if abs(a - b) == 1]
+    if tier == "thorough":
+        normal, pq, pe = pairs, promo, ep
+    else:
+        r = common.rng(seed, "rt")
+        normal = ["e1g1", "e1c1", "e8g8", "e8c8", "e1f1", "e8d8", "e2e4", "e7e5", "e4d5", "d5e4", "e5d6", "d4e3", "c2d3", "g1f3", "a1a8", "h8h1", "d1h5", "b7a8"]
+        normal += r.sample([p for p in pairs if p not in normal], n_random)
+        pq = list(P_CRITICAL_PROMO)
+        pe = list(P_CRITICAL_EP)
+    hs = ["h_text::c12_rt_n_" + p for p in normal] + ["h_text::c12_rt_q_" + p for p in pq] + ["h_text::c12_rt_e_" + p for p in pe]
+    return hs + ["h_text::c12_rt_c_short", "h_text::c12_rt_c_long"]
+
+
+def _c12(tier, seed):
+    return ["h_text::c12_uci_text_normal", "h_text::c12_uci_text_promo", "h_text::c12_uci_text_ep", "h_text::c12_uci_text_castle",
+            "h_text::c12_parse_no_alias_4", "h_text::c12_parse_no_alias_5"] + rt_family(tier, seed)
+
+
+def _c20(tier, seed):
+    return ["h_text::c20_pgn_text_normal", "h_text::c20_pgn_text_promo", "h_text::c20_pgn_text_ep", "h_text::c20_pgn_text_castle"]
+
+
+TEXT_ASSUME = [
+    "move values are arbitrary values of their kind (all squares, pieces, owners, captured pieces); strings are 4 or 5 ASCII bytes of move shape: file a-h, rank 1-8, file, rank, optional lower-case letter a-z (upper-case promotion letters and longer strings are outside the stated string domain)",
+    "for the parser laws the position is any consistent position (13^64 boards, rights, e.p. file, side) built under the representation invariant",
+    "the oracle's text renderers (spec.rs: uci_text, pgn_text) are the reference",
+]
+PROPS["C12"] = dict(select=_c12, witnesses=["h_text::c12_witness"], timeout=1500,
+                    functions=["chess::move_struct::Move::uci_notation", "chess::move_struct::Move::from_uci_notation", "chess::Game::{get_king_position,get_position}"],
+                    bounds="texts: all move values per kind; parser: all strings of move shape (4 and 5 bytes) over all consistent positions; round trip: squares concrete per instance (quick: rule-critical + seeded pairs, thorough: all 1792 pairs, 22 promotion and 14 e.p. file pairs, both castlings), contents symbolic; unwind 9 with unwinding assertions",
+                    assumptions=TEXT_ASSUME, native_replay=True)
+PROPS["C20"] = dict(select=_c20, witnesses=["h_text::c20_witness"], timeout=1500,
+                    functions=["chess::move_struct::Move::pgn_notation", "chess::piece::Piece::as_str_pgn"],
+                    bounds="all move values per kind (every piece, owner, square pair, captured piece, promotion piece); the diagram and FEN/hash lines of `show` are covered by C11/C04 lemmas, not here; unwind 9 with unwinding assertions",
+                    assumptions=TEXT_ASSUME[:1] + TEXT_ASSUME[2:], native_replay=True)
+
 
 def _c13(tier, seed):
     from mirsmt import c13
@@ -247,13 +303,14 @@ def run_property(prop, tier, seed):
         src, vecs = kani.concrete_playback(h)
         native = {}
         reproduced = None
-        if vecs is not None and cfg.get("native_replay", False):
+        stubbed = any(h.startswith(pre) for pre in cfg.get("stubbed_prefixes", []))
+        if vecs is not None and cfg.get("native_replay", False) and not stubbed:
             for profile in ("dev", "release"):
                 rep, detail = common.native_replay(h, vecs, profile)
                 native[profile] = {"reproduced": rep, "detail": detail}
             reproduced = bool(native["dev"]["reproduced"]) or bool(native["release"]["reproduced"])
         path = common.save_replay(prop, h, r.failed_checks, vecs, src, native)
-        if reproduced or (vecs is not None and not cfg.get("native_replay", False)):
+        if reproduced or (vecs is not None and (stubbed or not cfg.get("native_replay", False))):
             confirmed.append((h, path))
         else:
             unreproduced.append((h, path))
